@@ -201,6 +201,21 @@ def gated(tag):
     return scs
 
 
+def handshake_refused(tag):
+    """the broker refuses the connect request of the first redial attempt(s) with a non-success result (e.g. AuthFailed = 8): the client
+    retries with a fresh token and recovers."""
+    scs = []
+    for n in (1, 2):
+        for delay in (0, 40):
+            conn = {"pingMs": [100, 100], "dialDelayMs": delay}
+            ss = ("S1", "S2")
+            steps = prelude(ss, conn) + [{"a": "rule", "rule": {"on": "ConnectRequest", "do": "codes", "codes": [8] * n + [1]}},
+                                         {"a": "cut"}, {"a": "await", "ev": "Reconnected", "n": 1, "ms": 5000}, {"a": "sleep", "ms": 250}]
+            steps += probes(ss) + teardown(ss)
+            scs.append({"id": "%s/handshakeRefused/%d/d%d" % (tag, n, delay), "kind": "iscp", "conn": conn, "steps": steps})
+    return scs
+
+
 def close_during_outage(tag):
     """a stream is closed by the application while the connection is being re-established (the redial is held at a gate): the Close
     returns within its bound, the other streams are resumed and work, the closed stream stays closed."""
